@@ -234,6 +234,7 @@ func (g *Gen) Step() bool {
 			choice{g.wt("limitburst"), func() { g.opLimitBurst(conns) }},
 			choice{g.wt("badreq"), func() { g.opBadReq(conns) }},
 			choice{g.wt("trigburst"), func() { g.opTrigBurst(conns) }},
+			choice{g.wt("deleteburst"), func() { g.opDeleteBurst(conns) }},
 			choice{g.wt("refburst"), func() { g.opRefBurst(conns) }},
 			choice{g.wt("recheckburst"), func() { g.opRecheckBurst(conns) }},
 			choice{g.wt("throtburst"), func() { g.opThrottleBurst(conns) }},
@@ -803,6 +804,64 @@ func (g *Gen) opTrigBurst(conns []*Client) {
 	if g.wt("call") > 0 && rapid.Bool().Draw(g.t, "callafter") {
 		// a call right after the trigger must not be decided on the cached verdict
 		g.w.Exec(Op{K: "creq", C: c.Idx, ID: g.nextID(c), M: "call." + rid + "." + g.sample("method", g.methods())})
+	}
+}
+
+// opDeleteBurst: a resource the client holds both directly (a verdict is
+// cached for it) and below another resource it holds is deleted; a trigger
+// that would invalidate the verdict follows; then the client asks for the
+// resource again. The delete leaves the connection's subscription alive (the
+// parent keeps it) but cut off from the cache, so whatever it remembered about
+// access must not be used.
+func (g *Gen) opDeleteBurst(conns []*Client) {
+	c := g.conn(conns)
+	var cands []string
+	for rid, n := range c.Ref.Direct {
+		if n <= 0 || strings.Contains(rid, "?") || strings.Contains(rid, "{cid}") {
+			continue
+		}
+		r := c.Ref.Held[rid]
+		if r == nil || r.Type == 'e' || r.Deleted {
+			continue
+		}
+		// referenced by another resource the client holds
+		for prid, pr := range c.Ref.Held {
+			if prid == rid || pr.Type == 'e' {
+				continue
+			}
+			refd := false
+			for _, x := range pr.Refs() {
+				if x == rid {
+					refd = true
+				}
+			}
+			if refd {
+				cands = append(cands, rid)
+				break
+			}
+		}
+	}
+	if len(cands) == 0 {
+		return
+	}
+	sort.Strings(cands)
+	rid := g.sample("dbrid", cands)
+	g.w.Exec(Op{K: "delete", S: rid})
+	switch rapid.IntRange(0, 3).Draw(g.t, "dbtrig") {
+	case 0:
+		g.w.Exec(Op{K: "reaccess", S: rid})
+	case 1:
+		g.w.Exec(Op{K: "sysreset", P: `{"access":[` + jstr(rid) + `]}`})
+	case 2:
+		g.w.Exec(Op{K: "sysreset", P: `{"access":[">"]}`})
+	}
+	switch g.sample("dbaction", []string{"subscribe", "subscribe", "get", "call"}) {
+	case "call":
+		g.w.Exec(Op{K: "creq", C: c.Idx, ID: g.nextID(c), M: "call." + rid + "." + g.sample("method", g.methods())})
+	case "get":
+		g.w.Exec(Op{K: "creq", C: c.Idx, ID: g.nextID(c), M: "get." + rid})
+	default:
+		g.w.Exec(Op{K: "creq", C: c.Idx, ID: g.nextID(c), M: "subscribe." + rid})
 	}
 }
 
